@@ -3,7 +3,7 @@
 #include <zlib.h>
 #include <ctype.h>
 
-const int gq_alts[GQ__N] = { 6, 5, 2, 3, 5, 5, 3, 4, 3, 5 };
+const int gq_alts[GQ__N] = { 6, 7, 2, 3, 5, 5, 3, 4, 3, 5 };
 const int gs_alts[GS__N] = { 2, 6, 3, 5, 5, 5 };
 
 static const char *const METHODS[] = { "GET", "POST", "HEAD", "PUT", "DELETE", "OPTIONS" };
@@ -56,16 +56,18 @@ static void style_b(int alt, int ord, const char *pfx, hx_buf *w, gx_hdr *tab, i
 }
 
 /* chunk extensions: 0 none, 1 short, 2 long enough to straddle any probe window, starting with a non-hex letter */
-#define GX_EXT(e) ((e) == 0 ? "" : (e) == 1 ? ";x=y" : ";token=value-0123456789")
+#define GX_EXT(e) ((e) == 0 || (e) == 3 ? "" : (e) == 1 ? ";x=y" : ";token=value-0123456789")
 void gx_chunked(hx_buf *out, const uint8_t *body, size_t n, const int *sizes, int nsizes, int ext, int trailer) {
     size_t off = 0;
     for (int i = 0; i < nsizes; i++) {
         if (sizes[i] <= 0) continue;
+        if (ext == 3) hb_puts(out, "\r\n");                 /* 3: an empty line before every chunk-size line (tolerated: "empty chunk length line, lets try to continue") */
         hb_printf(out, "%x%s\r\n", sizes[i], GX_EXT(ext));
         hb_put(out, body + off, (size_t) sizes[i]); off += (size_t) sizes[i];
         hb_puts(out, "\r\n");
     }
     (void) n;
+    if (ext == 3) hb_puts(out, "\r\n");
     hb_printf(out, "0%s\r\n", GX_EXT(ext));
     if (trailer) hb_puts(out, "X-T: tr\r\n");
     hb_puts(out, "\r\n");
@@ -93,6 +95,12 @@ void gx_build(const int *q, const int *s, int ord, int last, gx_msg *t, hx_buf *
                 strcpy(t->uhost, "h.example"); t->uport = 8080; absolute = 1;
                 break;
         case 4: strcpy(t->target, "*"); strcpy(t->path, "*"); break;
+        /* absolute-form with an empty path: the authority ends at '?' (RFC 3986 3.2), resp. at the end of the target */
+        case 5: snprintf(t->target, sizeof t->target, "http://h.example:8080?q=%d", ord); t->path[0] = 0; t->path_absent = 1;
+                snprintf(t->query, sizeof t->query, "q=%d", ord); t->has_query = 1; t->nqparams = 1; strcpy(t->qparams[0].k, "q"); snprintf(t->qparams[0].v, sizeof t->qparams[0].v, "%d", ord);
+                strcpy(t->uhost, "h.example"); t->uport = 8080; absolute = 1;
+                break;
+        case 6: strcpy(t->target, "http://h.example:8080"); t->path[0] = 0; t->path_absent = 1; strcpy(t->uhost, "h.example"); t->uport = 8080; absolute = 1; break;
     }
     int v10 = q[GQ_VERSION] == 1;
     snprintf(t->proto, sizeof t->proto, "%s", v10 ? "HTTP/1.0" : "HTTP/1.1"); t->pnum = v10 ? 100 : 101;
@@ -256,7 +264,7 @@ int gx_compare(const gx_msg *t, htp_tx_t *tx, const hx_txrec *rec, hx_buf *err, 
     if (!beq(tx->request_uri, t->target)) { hb_printf(err, "request-URI expected %s got ", t->target); pb(err, tx->request_uri); hb_putc(err, '\n'); bad++; }
     if (!beq(tx->request_protocol, t->proto)) { hb_printf(err, "protocol expected %s got ", t->proto); pb(err, tx->request_protocol); hb_putc(err, '\n'); bad++; }
     if (tx->request_protocol_number != t->pnum) MIS("protocol number expected %d got %d", t->pnum, tx->request_protocol_number);
-    if (!tx->parsed_uri || !beq(tx->parsed_uri->path, t->path)) { hb_printf(err, "path expected %s got ", t->path); pb(err, tx->parsed_uri ? tx->parsed_uri->path : NULL); hb_putc(err, '\n'); bad++; }
+    if (t->path_absent ? (tx->parsed_uri && tx->parsed_uri->path != NULL && bstr_len(tx->parsed_uri->path) != 0 && !beq(tx->parsed_uri->path, "/")) : (!tx->parsed_uri || !beq(tx->parsed_uri->path, t->path))) { hb_printf(err, "path expected %s got ", t->path); pb(err, tx->parsed_uri ? tx->parsed_uri->path : NULL); hb_putc(err, '\n'); bad++; }
     if (tx->parsed_uri) {
         if (t->has_query ? !beq(tx->parsed_uri->query, t->query) : tx->parsed_uri->query != NULL) { hb_printf(err, "query expected %s got ", t->has_query ? t->query : "NULL"); pb(err, tx->parsed_uri->query); hb_putc(err, '\n'); bad++; }
         if (t->uhost[0] ? !beq(tx->parsed_uri->hostname, t->uhost) : tx->parsed_uri->hostname != NULL) { hb_printf(err, "uri host expected %s got ", t->uhost[0] ? t->uhost : "NULL"); pb(err, tx->parsed_uri->hostname); hb_putc(err, '\n'); bad++; }
